@@ -229,13 +229,40 @@ LeafForward ==
   /\ Tick
   /\ UNCHANGED <<wid, phase, lp, lpl, old, saved, handed, before, dedup, nint, plan>>
 
-\* walk(): the report after _walk returned
+\* walk(): the report after _walk returned, or after StopProcess was caught
 FinalReport(save) ==
-  /\ Running /\ ctl = "final"
+  /\ Running /\ ctl \in {"final", "final_stop"}
   /\ saved' = IF save THEN CurId ELSE saved
-  /\ ctl' = "end" /\ phase' = "done"
+  /\ ctl' = "end" /\ phase' = IF ctl = "final" THEN "done" ELSE "stopped"
   /\ Tick
   /\ UNCHANGED <<wid, stack, lp, lpl, old, handed, before, dedup, nint, plan>>
+
+\* graceful stop: SeedProgress.running() answers False at the head of _walk (after the optional progress report,
+\* before the loop).  If the level is one of the seeded levels the progress is reported once more (StopReport), then
+\* StopProcess unwinds all frames.  The exits of `with step_down` are NOT run by the unwinding (the statements after
+\* the yield of the context manager are skipped): level_progresses keeps the path to the point of the stop, and
+\* that is what walk() reports last (FinalReport from "final_stop") and what a continued run starts from.
+AtHead == ~Planned /\ phase = "run" /\ ctl = "walk" /\ Top.pc = "loop" /\ Top.i = 1 /\ nint < MaxInterrupts
+StopReport(save) ==
+  /\ AtHead /\ Top.proc
+  /\ saved' = IF save THEN CurId ELSE saved
+  /\ stack' = <<>> /\ ctl' = "final_stop"
+  /\ Tick
+  /\ UNCHANGED <<wid, phase, lp, lpl, old, handed, before, dedup, nint, plan>>
+StopSilent ==
+  /\ AtHead /\ ~Top.proc
+  /\ stack' = <<>> /\ ctl' = "final_stop"
+  /\ Tick
+  /\ UNCHANGED <<wid, phase, lp, lpl, old, saved, handed, before, dedup, nint, plan>>
+\* the stopped process ends; what survives is what survives an interruption
+StoppedExit ==
+  /\ phase = "stopped"
+  /\ phase' = "crashed" /\ ctl' = "start" /\ stack' = <<>>
+  /\ lp' = NoneP /\ lpl' = 0 /\ old' = NoneP
+  /\ before' = before \cup Range(handed) /\ handed' = <<>>
+  /\ dedup' = [l \in DOMAIN dedup |-> <<>>]
+  /\ nint' = nint + 1 /\ steps' = 0
+  /\ UNCHANGED <<wid, saved, plan>>
 
 \* the process dies (KeyboardInterrupt, SeedInterrupted, kill): only the progress file and the work handed
 \* over so far survive
@@ -261,6 +288,8 @@ Next ==
   \/ \E s \in SaveChoices : Report(s)
   \/ \E s \in SaveChoices : FinalReport(s)
   \/ Interrupt \/ Continue
+  \/ \E s \in SaveChoices : StopReport(s)
+  \/ StopSilent \/ StoppedExit
 
 Spec == Init /\ [][Next]_vars
 
@@ -287,11 +316,12 @@ HandedNow  == Range(handed)
 HandedAll  == before \cup HandedNow
 
 TypeOK ==
-  /\ phase \in {"run", "crashed", "done"} /\ ctl \in {"start", "walk", "final", "end"}
+  /\ phase \in {"run", "crashed", "done", "stopped"} /\ ctl \in {"start", "walk", "final", "final_stop", "end"}
   /\ lpl \in 0 .. MaxLevel + 1 /\ nint \in 0 .. MaxInterrupts
   /\ (ctl = "walk") = (stack # <<>>)
-  /\ lpl = (IF stack = <<>> THEN 0
-            ELSE Len(stack) - (IF Top.pc \in {"decide", "stepup"} THEN 0 ELSE 1))
+  /\ (ctl = "final_stop" \/ phase = "stopped") \/
+       lpl = (IF stack = <<>> THEN 0
+              ELSE Len(stack) - (IF Top.pc \in {"decide", "stepup"} THEN 0 ELSE 1))
 
 \* nothing outside the coverage is ever requested
 NoOutside == HandedAll \subseteq Allowed
